@@ -69,6 +69,17 @@ DivFlux(psi, chi, f) == PAdd(Advect(psi, chi, f), PMul(f, Lap(chi)))          \*
 CurlFlux(psi, chi, f) == PAdd(PMul(f, Lap(psi)), PAdd(Jac(f, chi), Dot(f, psi)))   \* r . curl(f u)
 Kinetic(psi, chi) == PAdd(PScale(<<1, 2>>, PAdd(Dot(chi, chi), Dot(psi, psi))), Jac(psi, chi))
 
+(* the global mean of a polynomial field.  In normal form (z-degree <= 1) only even powers of x and y with
+   z-degree 0 contribute; the mean of x^(2p) y^(2q) over the unit sphere is (2p-1)!! (2q-1)!! / (2p+2q+1)!! *)
+RECURSIVE DFact(_)
+DFact(n) == IF n <= 0 THEN 1 ELSE n * DFact(n - 2)
+MeanMon(m) == IF m[3] # 0 \/ m[1] % 2 = 1 \/ m[2] % 2 = 1 THEN Zero
+              ELSE Norm(DFact(m[1] - 1) * DFact(m[2] - 1), DFact(m[1] + m[2] + 1))
+RECURSIVE MeanOver(_, _)
+MeanOver(p, SS) == IF SS = {} THEN Zero
+                   ELSE LET m == CHOOSE x \in SS : TRUE IN RAdd(RMul(p[m], MeanMon(m)), MeanOver(p, SS \ {m}))
+Mean(p) == MeanOver(p, DOMAIN p)
+
 (* a basis of real spherical harmonics (not normalised) of degree <= 3 *)
 Harmonics == [z |-> PZ, x |-> PX, y |-> PY,
               xy |-> PTerm(<<1, 1, 0>>, One), xz |-> PTerm(<<1, 0, 1>>, One), yz |-> PTerm(<<0, 1, 1>>, One),
